@@ -480,6 +480,7 @@ fn classify(name: &str, data: Vec<u8>) -> Option<RealFont> {
 
 const LATIN_WORDS: &[&str] = &["office", "fi", "ffl", "AVATAR", "To", "1/2", "3/45", "difficult", "Würde", "naïve", "a b", "fjord", "Type", "ff"];
 const ARABIC_WORDS: &[&str] = &["السلام", "عليكم", "كتاب", "مُحَمَّد", "لا", "الله", "بِسْمِ", "ٱلرَّحْمَٰنِ", "شيء", "لله", "ـّـ", "ّ"];
+const CJK_WORDS: &[&str] = &["\u{FF1A}\u{3042}\u{30FC}\u{3001}", "\u{300C}\u{65E5}\u{672C}\u{8A9E}\u{300D}", "\u{30FC}\u{3002}", "\u{FF08}\u{30A2}\u{FF09}", "\u{2026}\u{301C}", "\u{6771}\u{4EAC}"];
 const SYRIAC_WORDS: &[&str] = &["ܫܠܡܐ", "ܐܒܘܢ", "ܕܒܫܡܝܐ", "ܡܠܟܘܬܟ", "ܢܬܩܕܫ"];
 const THAI_WORDS: &[&str] = &["สวัสดี", "ภาษาไทย", "น้ำ", "กรุงเทพ", "ที่นี่", "ำ"];
 const LAO_WORDS: &[&str] = &["ສະບາຍດີ", "ພາສາລາວ", "ນ້ຳ", "ຳ"];
@@ -527,6 +528,8 @@ pub struct C03 {
     outline: c03_outline::Outline,
     /// set when the running history already counted a generator self-check failure
     model_mismatch_flag: std::cell::Cell<bool>,
+    /// the font of the running history has CJK scripts (texts for its default scripts may be CJK)
+    cjk_now: std::cell::Cell<bool>,
 }
 
 impl C03 {
@@ -554,7 +557,7 @@ impl C03 {
         }
         let pure = c03_pure::Pure::new(cx);
         let outline = c03_outline::Outline::new(cx);
-        C03 { fonts, shaping, variable, images, all, words, pure, outline, model_mismatch_flag: std::cell::Cell::new(false) }
+        C03 { fonts, shaping, variable, images, all, words, pure, outline, model_mismatch_flag: std::cell::Cell::new(false), cjk_now: std::cell::Cell::new(false) }
     }
 
     fn word(&self, script: u32, rng: &mut Rng) -> String {
@@ -570,6 +573,8 @@ impl C03 {
             "syrc" => SYRIAC_WORDS,
             "thai" => THAI_WORDS,
             "lao " => LAO_WORDS,
+            "kana" | "hani" | "hang" | "bopo" => CJK_WORDS,
+            "DFLT" | "latn" | "cyrl" | "grek" if self.cjk_now.get() && rng.bool() => CJK_WORDS,
             _ => LATIN_WORDS,
         };
         rng.pick(list).to_string()
@@ -604,8 +609,63 @@ impl C03 {
     }
 }
 
+/// A feature set given both ways: `Features::Mask(bits)` and `Features::Custom(tags)` whose tags
+/// map to exactly those bits (for the two-tag bit VRT2_OR_VERT either alias, in random order).
+fn paired_feats(tags: &[u32], rng: &mut Rng) -> Vec<Feat> {
+    let mut bits = FeatureMask::empty();
+    let mut list: Vec<u32> = Vec::new();
+    for t in tags {
+        let m = FeatureMask::from_tag(*t);
+        if m.is_empty() || bits.contains(m) {
+            continue;
+        }
+        bits |= m;
+        list.push(*t);
+    }
+    if list.is_empty() {
+        return Vec::new();
+    }
+    let mut out = vec![Feat::Mask(bits.bits())];
+    let variants = if bits.contains(FeatureMask::VRT2_OR_VERT) { 2 } else { 1 };
+    for k in 0..variants {
+        let mut l: Vec<(u32, Option<usize>)> = list
+            .iter()
+            .map(|t| {
+                if FeatureMask::from_tag(*t) == FeatureMask::VRT2_OR_VERT {
+                    (if k == 0 { tag("vert") } else { tag("vrt2") }, None)
+                } else {
+                    (*t, None)
+                }
+            })
+            .collect();
+        if rng.bool() {
+            rng.shuffle(&mut l);
+        }
+        out.push(Feat::Custom(l));
+    }
+    out
+}
+
+fn feat_bits(f: &Feat) -> Option<u64> {
+    match f {
+        Feat::Mask(b) => Some(*b),
+        Feat::Custom(v) => {
+            let mut bits = FeatureMask::empty();
+            for (t, _) in v {
+                let m = FeatureMask::from_tag(*t);
+                if m.is_empty() {
+                    return None;
+                }
+                bits |= m;
+            }
+            Some(bits.bits())
+        }
+    }
+}
+
 fn random_mask(rng: &mut Rng) -> u64 {
-    match rng.below(8) {
+    match rng.below(9) {
+        8 => (FeatureMask::VRT2_OR_VERT | if rng.bool() { FeatureMask::default() } else { FeatureMask::empty() }).bits(),
         0 => FeatureMask::default().bits(),
         1 => 0,
         2 => FeatureMask::all().bits(),
@@ -626,6 +686,8 @@ struct Pools {
     chars: Vec<char>,
     gids: Vec<u16>,
     image_heavy: bool,
+    /// many-keys histories: nearly all operations are shape calls
+    shape_heavy: bool,
 }
 
 fn gen_op(p: &Pools, rng: &mut Rng) -> Op {
@@ -636,6 +698,9 @@ fn gen_op(p: &Pools, rng: &mut Rng) -> Op {
         let tuple = if p.tuples == 0 || rng.chance(1, 4) { None } else { Some(rng.below(p.tuples)) };
         ShapeArgs { text, script, lang: *rng.pick(&p.langs), feat: rng.pick(&p.feats).clone(), tuple, kerning: !rng.chance(1, 4) }
     };
+    if p.shape_heavy && !rng.chance(1, 8) {
+        return Op::Shape(shape_args(rng));
+    }
     let r = rng.below(100);
     let img = if p.image_heavy { 25 } else { 4 };
     if r < img {
@@ -704,7 +769,30 @@ impl C03 {
         }
         let other_lang = if !f.langs.is_empty() && !rng.chance(1, 4) { *rng.pick(&f.langs) } else { *rng.pick(&[tag("URD "), tag("ENG "), tag("TRK "), tag("MAR "), tag("NEP "), tag("DFLT")]) };
         let langs = vec![None, Some(other_lang)];
+        self.cjk_now.set(f.scripts.iter().any(|s| *s == tag("kana") || *s == tag("hani")));
         let mut feats = vec![Feat::Mask(FeatureMask::default().bits())];
+        // one feature set both as a mask and as custom lists that map to the same mask bits
+        if !rng.chance(1, 4) {
+            let mut tags: Vec<u32> = Vec::new();
+            let has_vert = f.features.iter().any(|t| *t == tag("vert") || *t == tag("vrt2"));
+            if has_vert && !rng.chance(1, 4) {
+                tags.push(tag("vrt2"));
+            }
+            let known: Vec<u32> = f.features.iter().copied().filter(|t| !FeatureMask::from_tag(*t).is_empty()).collect();
+            for _ in 0..rng.below(4) {
+                if !known.is_empty() {
+                    tags.push(*rng.pick(&known));
+                }
+            }
+            if tags.is_empty() {
+                tags = FeatureMask::from_bits_truncate(random_mask(rng)).iter().map(|f| f.feature_tag).take(6).collect();
+            }
+            for ft in paired_feats(&tags, rng) {
+                if !feats.contains(&ft) {
+                    feats.push(ft);
+                }
+            }
+        }
         while feats.len() < 3 {
             let ft = if rng.chance(2, 3) {
                 Feat::Mask(random_mask(rng))
@@ -742,7 +830,7 @@ impl C03 {
         if rng.chance(1, 3) {
             gids.push(n); // out of range
         }
-        Pools { scripts, langs, feats, tuples: ntuples, texts, chars, gids, image_heavy: class == FontClass::Images }
+        Pools { scripts, langs, feats, tuples: ntuples, texts, chars, gids, image_heavy: class == FontClass::Images, shape_heavy: false }
     }
 
     /// Up to three normalised tuples built from the font's own fvar (and avar).
@@ -824,6 +912,57 @@ fn fault_font(data: &[u8], rng: &mut Rng) -> Option<(Vec<u8>, String)> {
     Some((f.build(), format!("{}:{}", t.trim(), kind)))
 }
 
+const MANY_LANGS: &[&str] = &[
+    "ENG ", "TRK ", "ROM ", "URD ", "MAR ", "NEP ", "DEU ", "FRA ", "NLD ", "PLK ", "CAT ", "MOL ", "AZE ", "CRT ", "KAZ ", "TAT ", "SRB ", "BGR ", "MKD ", "ARA ", "FAR ", "SND ", "KSH ", "HIN ",
+    "SAN ", "BEN ", "ASM ", "GUJ ", "PAN ", "TAM ", "TEL ", "KAN ", "MAL ", "SNH ", "KHM ", "BRM ", "THA ", "LAO ", "JAN ", "KOR ", "ZHS ", "ZHT ", "VIT ", "IPPH", "xxxx", "DFLT",
+];
+
+/// Many-keys histories: many languages and many feature masks that really select different
+/// lookup lists (subsets of the features the font has), so that one Font sees far more than 64
+/// distinct (script, language, mask, substitution) keys.
+fn widen_pools(p: &mut Pools, font_tags: &[u32], font_langs: &[u32], rng: &mut Rng) {
+    p.shape_heavy = true;
+    let nl = 10 + rng.below(21);
+    for l in font_langs.iter().take(6) {
+        if !p.langs.contains(&Some(*l)) {
+            p.langs.push(Some(*l));
+        }
+    }
+    while p.langs.len() < nl {
+        let l = Some(tag(*rng.pick(MANY_LANGS)));
+        if !p.langs.contains(&l) {
+            p.langs.push(l);
+        }
+    }
+    let known: Vec<FeatureMask> = font_tags.iter().map(|t| FeatureMask::from_tag(*t)).filter(|m| !m.is_empty()).collect();
+    let nf = 8 + rng.below(9);
+    let mut tries = 0;
+    while p.feats.len() < nf && tries < 200 {
+        tries += 1;
+        let mut m = match rng.below(3) {
+            0 => FeatureMask::default(),
+            1 => FeatureMask::empty(),
+            _ => FeatureMask::from_bits_truncate(rng.u64()) & FeatureMask::default(),
+        };
+        for k in &known {
+            if rng.bool() {
+                m |= *k;
+            } else if rng.chance(1, 3) {
+                m -= *k;
+            }
+        }
+        let ft = if rng.chance(1, 6) {
+            Feat::Custom(m.iter().map(|f| (f.feature_tag, None)).collect())
+        } else {
+            Feat::Mask(m.bits())
+        };
+        if !p.feats.contains(&ft) {
+            p.feats.push(ft);
+        }
+    }
+    p.texts.truncate(3);
+}
+
 fn gen_tuples(g: &GenFont, rng: &mut Rng) -> Option<(Vec<Vec<i16>>, Vec<OwnedTuple>)> {
     let fvar_bytes = crate::sfnt::Font::parse(&g.bytes)?.gets("fvar")?.to_vec();
     let fvar = ReadScope::new(&fvar_bytes).read::<FvarTable<'_>>().ok()?;
@@ -877,6 +1016,21 @@ fn gen_pools(g: &GenFont, ntuples: usize, rng: &mut Rng) -> Pools {
     }
     let langs = vec![None, Some(tag(*rng.pick(c03_gen::LANGS)))];
     let mut feats = vec![Feat::Mask(FeatureMask::default().bits())];
+    if !rng.chance(1, 4) {
+        let present: Vec<u32> = g.gsub.features.iter().map(|f| f.0).collect();
+        let mut tags: Vec<u32> = Vec::new();
+        if present.contains(&tag("vert")) || present.contains(&tag("vrt2")) || rng.chance(1, 6) {
+            tags.push(tag("vrt2"));
+        }
+        for _ in 0..rng.below(4) {
+            tags.push(if rng.chance(3, 4) { *rng.pick(&present) } else { tag(*rng.pick(c03_gen::GSUB_FEATURES)) });
+        }
+        for ft in paired_feats(&tags, rng) {
+            if !feats.contains(&ft) {
+                feats.push(ft);
+            }
+        }
+    }
     while feats.len() < 3 {
         let ft = match rng.below(6) {
             0 => Feat::Mask((FeatureMask::default() | FeatureMask::SMCP | FeatureMask::ONUM | FeatureMask::RVRN).bits()),
@@ -917,7 +1071,7 @@ fn gen_pools(g: &GenFont, ntuples: usize, rng: &mut Rng) -> Pools {
     let mut gids: Vec<u16> = (0..4).map(|_| rng.below(g.num_glyphs as usize) as u16).collect();
     gids.push(0);
     gids.push(g.num_glyphs);
-    Pools { scripts, langs, feats, tuples: ntuples, texts, chars, gids, image_heavy: false }
+    Pools { scripts, langs, feats, tuples: ntuples, texts, chars, gids, image_heavy: false, shape_heavy: false }
 }
 
 /// Short form of a rendered result for witnesses: glyph ids / kerning / placements of a run,
@@ -949,11 +1103,13 @@ fn run_of(infos: &[Info]) -> Vec<(u16, i32)> {
 }
 
 impl C03 {
-    fn history_case(&mut self, cx: &mut Ctx, rng: &mut Rng, class: FontClass) {
+    fn history_case(&mut self, cx: &mut Ctx, rng: &mut Rng, class: FontClass, many: bool) {
         self.model_mismatch_flag.set(false);
         // --- the font, its tuples and pools
         let gen: Option<GenFont>;
         let mut real_fv = false;
+        let mut many_feature_tags: Vec<u32> = Vec::new();
+        let mut many_langs: Vec<u32> = Vec::new();
         let faulted_bytes: Vec<u8>;
         let mut gen_raw_tuples: Vec<Vec<i16>> = Vec::new();
         let (bytes, name, tuples, pools): (&[u8], String, Vec<OwnedTuple>, Pools) = match class {
@@ -1002,13 +1158,32 @@ impl C03 {
                     cx.inconclusive("no-font-of-class");
                     return;
                 }
-                let f = &self.fonts[*rng.pick(list)];
+                let mut f = &self.fonts[*rng.pick(list)];
+                if many {
+                    // keep the long histories cheap: small fonts only
+                    for _ in 0..8 {
+                        if f.data.len() <= 200_000 {
+                            break;
+                        }
+                        f = &self.fonts[*rng.pick(list)];
+                    }
+                }
                 real_fv = f.has_gsub_fv && f.has_fvar;
+                many_feature_tags = f.features.clone();
+                many_langs = f.langs.clone();
                 let tuples = if f.has_fvar { self.real_tuples(f, rng) } else { Vec::new() };
                 let pools = self.real_pools(f, class, tuples.len(), rng);
                 (f.data.as_slice(), f.name.clone(), tuples, pools)
             }
         };
+        let mut pools = pools;
+        if many {
+            let font_tags: Vec<u32> = match gen.as_ref() {
+                Some(g) => g.gsub.features.iter().map(|f| f.0).collect(),
+                None => many_feature_tags.clone(),
+            };
+            widen_pools(&mut pools, &font_tags, &many_langs, rng);
+        }
         let env = Env::new(bytes, tuples);
         let mut long = match load_font(bytes) {
             Some(f) => f,
@@ -1021,13 +1196,18 @@ impl C03 {
                 return;
             }
         };
-        let n_ops = 2 + rng.below(39);
+        let n_ops = if many { 70 + rng.below(131) } else { 2 + rng.below(39) };
         let mut history: Vec<Op> = Vec::new();
         let mut any_hit_after_different_args = false;
         let mut compared = 0u64;
         let mut violated = false;
         for step in 0..n_ops {
-            let op = gen_op(&pools, rng);
+            let op = if many && !history.is_empty() && (step + 12 >= n_ops || rng.chance(1, 5)) {
+                // revisit an early call (throughout, and for all of the last dozen steps)
+                history[rng.below(history.len().min(15))].clone()
+            } else {
+                gen_op(&pools, rng)
+            };
             // fresh-object model
             let fresh = match load_font(bytes) {
                 Some(mut f) => quiet(|| env.run(&mut f, &op)).unwrap_or_else(|e| e),
@@ -1078,6 +1258,36 @@ impl C03 {
             }
         }
         let _ = violated;
+        self.feature_pair_classes(cx, &history);
+        if many {
+            cx.class("many-keys:history");
+            let mut keys: Vec<String> = Vec::new();
+            let mut revisit = false;
+            for op in &history {
+                if let Op::Shape(s) = op {
+                    if let Feat::Mask(_) = s.feat {
+                        let k = format!("{} {:?} {:?} {:?}", s.script, s.lang, s.feat, s.tuple);
+                        match keys.iter().position(|x| *x == k) {
+                            Some(i) => {
+                                if keys.len() - i > 64 {
+                                    revisit = true;
+                                }
+                            }
+                            None => keys.push(k),
+                        }
+                    }
+                }
+            }
+            if keys.len() >= 64 {
+                cx.class("many-keys:64-or-more-distinct-mask-keys");
+            }
+            if keys.len() >= 100 {
+                cx.class("many-keys:100-or-more-distinct-mask-keys");
+            }
+            if revisit {
+                cx.class("many-keys:key-revisited-after-64-newer-keys");
+            }
+        }
         cx.class(&format!("history:{:?}", class));
         if real_fv {
             cx.class("history:real-font-with-gsub-feature-variations");
@@ -1100,6 +1310,41 @@ impl C03 {
                 ("history", J::A(history.iter().take(12).map(|o| J::s(o.label())).collect())),
                 ("ops", J::U(history.len() as u64)),
             ]));
+        }
+    }
+
+    /// Did the history ask for the same feature mask value both as `Mask` and as `Custom`
+    /// (same script, language, tuple)?
+    fn feature_pair_classes(&self, cx: &mut Ctx, history: &[Op]) {
+        let shapes: Vec<&ShapeArgs> = history
+            .iter()
+            .filter_map(|o| match o {
+                Op::Shape(s) => Some(s),
+                _ => None,
+            })
+            .take(60)
+            .collect();
+        let (mut pair, mut alias) = (false, false);
+        for (i, a) in shapes.iter().enumerate() {
+            for b in &shapes[..i] {
+                let (ma, mb) = (matches!(a.feat, Feat::Mask(_)), matches!(b.feat, Feat::Mask(_)));
+                if ma != mb && a.script == b.script && a.lang == b.lang && a.tuple == b.tuple {
+                    if let (Some(x), Some(y)) = (feat_bits(&a.feat), feat_bits(&b.feat)) {
+                        if x == y && x != 0 {
+                            pair = true;
+                            if x & FeatureMask::VRT2_OR_VERT.bits() != 0 {
+                                alias = true;
+                            }
+                        }
+                    }
+                }
+            }
+        }
+        if pair {
+            cx.class("feat-pair:custom-and-mask-with-equal-bits");
+        }
+        if alias {
+            cx.class("feat-pair:custom-and-mask-with-vert-vrt2-bit");
         }
     }
 
@@ -1144,6 +1389,7 @@ impl C03 {
                 Op::Shape(s) => Some(s),
                 _ => None,
             })
+            .take(40)
             .collect();
         let mut gsub_pair = false;
         let mut gpos_pair = false;
@@ -1272,21 +1518,29 @@ impl Prop for C03 {
         match mode.as_str() {
             "pure" => self.pure.case(cx, rng),
             "outline" => self.outline.case(cx, rng),
-            "gen" => self.history_case(cx, rng, FontClass::Generated),
-            "shaping" => self.history_case(cx, rng, FontClass::Shaping),
-            "variable" => self.history_case(cx, rng, FontClass::Variable),
-            "images" => self.history_case(cx, rng, FontClass::Images),
-            "any" => self.history_case(cx, rng, FontClass::Any),
-            "faulted" => self.history_case(cx, rng, FontClass::Faulted),
+            "gen" => self.history_case(cx, rng, FontClass::Generated, false),
+            "shaping" => self.history_case(cx, rng, FontClass::Shaping, false),
+            "variable" => self.history_case(cx, rng, FontClass::Variable, false),
+            "images" => self.history_case(cx, rng, FontClass::Images, false),
+            "any" => self.history_case(cx, rng, FontClass::Any, false),
+            "faulted" => self.history_case(cx, rng, FontClass::Faulted, false),
+            "many" => {
+                let c = *rng.pick(&[FontClass::Generated, FontClass::Generated, FontClass::Generated, FontClass::Shaping, FontClass::Variable]);
+                self.history_case(cx, rng, c, true)
+            }
             _ => match rng.below(100) {
                 0..=8 => self.pure.case(cx, rng),
                 9..=11 => self.outline.case(cx, rng),
-                12..=39 => self.history_case(cx, rng, FontClass::Generated),
-                40..=71 => self.history_case(cx, rng, FontClass::Shaping),
-                72..=83 => self.history_case(cx, rng, FontClass::Variable),
-                84..=89 => self.history_case(cx, rng, FontClass::Images),
-                90..=94 => self.history_case(cx, rng, FontClass::Faulted),
-                _ => self.history_case(cx, rng, FontClass::Any),
+                12..=39 => self.history_case(cx, rng, FontClass::Generated, false),
+                40..=67 => self.history_case(cx, rng, FontClass::Shaping, false),
+                68..=71 => {
+                    let c = *rng.pick(&[FontClass::Generated, FontClass::Generated, FontClass::Generated, FontClass::Shaping, FontClass::Variable]);
+                    self.history_case(cx, rng, c, true)
+                }
+                72..=83 => self.history_case(cx, rng, FontClass::Variable, false),
+                84..=89 => self.history_case(cx, rng, FontClass::Images, false),
+                90..=94 => self.history_case(cx, rng, FontClass::Faulted, false),
+                _ => self.history_case(cx, rng, FontClass::Any, false),
             },
         }
     }
